@@ -523,6 +523,11 @@ def gen_scenarios(rng, tier):
                     c["up"] = []
                     if not c["down"]:
                         c["down"] = [5, 0, 1000]
+        if x in ("agent", "clientfwd"):
+            # the service behind the exit does not close when it sees end-of-stream (a publisher that never reads): the client
+            # closed the tunnel, so the leg to the service has to be released all the same
+            conns.insert(1, {"up": [5, 1000], "down": [], "rbuf_up": [512], "rbuf_down": [512], "closer": "client", "mode": "half",
+                             "seed": 777 + i, "linger_ms": 4000})
         scs.append({"id": "t%d-%dn-%s-%s" % (i, n, e, x), "nodes": n, "entry": e, "exit": x, "conns": conns,
                     "echo_burst": 24 if (x in ("clientfwd", "agent") or i == 0) else 0})
     if tier != "quick":
@@ -554,6 +559,9 @@ def monitor_scenario(sc, so):
             return {"sig": "tunnel-zero-nil", "why": "%s: %d reads returned (0, nil)" % (where, co["zero_reads"])}
         if not co["eof_seen"]:
             return {"sig": "tunnel-eof", "why": "%s: the other end did not observe end-of-stream (%s)" % (where, co["eof_class"])}
+        if spec.get("linger_ms") and not co.get("linger_closed"):
+            return {"sig": "tunnel-half-released", "why": "%s: the client closed the tunnel; the service behind the %s exit saw end-of-stream but could still write to its connection %d ms later - the leg to the service was not released"
+                    % (where, sc["exit"], co.get("linger_ms", 0))}
     if so.get("burst_bad"):
         return {"sig": "tunnel-burst", "why": "scenario %s: %d clients connected at the same moment to an echoing upstream end: %s" % (sc["id"], so.get("burst_n", 0), "; ".join(so["burst_bad"]))}
     if len(so["conns"]) != len(sc["conns"]) or so.get("failed"):
